@@ -18,6 +18,10 @@ LEVEL = ("Mechanism level, strongest of the set: every clause is a gate an attac
 
 def check(ctx):
     F = ctx.facts("prod")
+    from rules import witness
+    ctx.clause("W-CF a content id of one kind cannot be looked up in the store of another kind (compile-fail witness E0308 + compiling twin)")
+    witness.check_pair(ctx, "cid-kind", "c14_cid_kind_bad.rs", "c14_cid_kind_ok.rs", ["air_interpreter_cid", "air_interpreter_data"], "E0308",
+                       "looking a CID<CanonResultCidAggregate> up in service_result_store")
     ctx.clause("R-MUST chain in verification_step::verify, each error propagated, arguments by provenance")
     ctx.clause("R-GUARD verify(Ok) dominates prepare and execute in execute_air_impl; Err -> prev data")
     ctx.clause("R-CFG air-interpreter default features enable check_signatures and gen_signatures")
